@@ -577,8 +577,8 @@ class StmtMixin:
         """A contiguous statement range of a (large) function, lowered as a function of its own: <function>__slice_<name>.
         The range starts at the declaration of `from_var` and ends before the first later statement of the same block that
         refers to a variable / member / function named `until_name` (until_ref), or with the declaration of `until_name`
-        (until_decl).  Every variable of the enclosing function that the range uses becomes a pointer parameter (in order of first
-        use), `this` becomes `self`; the value of `from_var` (until_ref) or `until_name` (until_decl) at the end is returned.
+        (until_decl).  Every variable of the enclosing function that the range uses becomes a pointer parameter (in alphabetical
+        order of their names), `this` becomes `self`; the value of `from_var` (until_ref) or `until_name` (until_decl) at the end is returned.
         Must-fire: exactly one such declaration and an end statement must exist."""
         from cxx2c import mangle
         cids = self.find_fn(fname, want_body=True)
@@ -652,6 +652,9 @@ class StmtMixin:
                 scan(c)
         for st in stmts:
             scan(st)
+        # parameters in alphabetical order of the variables' names: the signature does not depend on the order in which the range happens
+        # to use them (a harness passes them by position)
+        free.sort(key=lambda f: f[1].get('name') or '')
         ret_name = from_var if until_kind == 'until_ref' else until_name
         if from_kind == 'from_ref' and until_kind == 'until_ref':
             ret_name = None      # a range that starts at a statement (e.g. a loop): no value is returned, effects go through the pointer parameters
